@@ -64,6 +64,10 @@ func NewWorkspace(keep bool) (*Workspace, error) {
 		return nil, err
 	}
 	w := &Workspace{Dir: dir, Repo: filepath.Join(dir, "repo"), HX: filepath.Join(dir, "hx"), keep: keep}
+	if err := privateGoCache(dir); err != nil {
+		os.RemoveAll(dir)
+		return nil, err
+	}
 	if out, err := run("/", "rsync", "-a", "--exclude", ".git", repoRoot+"/", w.Repo+"/"); err != nil {
 		return nil, fmt.Errorf("copy repo: %v: %s", err, out)
 	}
